@@ -8,11 +8,20 @@
     * fields                    `leaf_field_roundtrip`, `bytes_field_roundtrip`, `int_field_roundtrip_empty`, `opt_*`
     * structs (compositional)   `struct_payload_roundtrip`, `struct_positional_suffix`, `struct_field_roundtrip`
     * commands                  `command_roundtrip`
-  PARTIAL: two leaf encodings are not covered by `LeafCanon` yet (UTF-8 text, date-time), and tagged `Vec`
-  fields are not yet admitted as groups (their group consumes all adjacent elements, which needs a side
-  condition on what follows). Both are covered by the correspondence check on every run.
+    * ALL of it at once         `Ty.rt` / `fields_rt` (Proofs/Canon.lean): every field shape of every well-formed
+                                schema on its canonical values — leaves incl. UTF-8 and date-time, `Option`, tagged
+                                `Vec` (elements are read back when what follows does not begin with the field's own
+                                number), nested structs with and without length prefix, a trailing field that takes
+                                everything — and `packet_roundtrip` for packet types.
+  FULL STATEMENT: `all_shipped_roundtrip` — for each of the 55 shipped types (the list is regenerated from
+  the source on every run, its well-formedness is re-decided by the kernel) and every canonical value.
+  The canonical domain is `StructDef.canon` (DESIGN.md §5.1 as a recursive definition over the schema).
+  One restriction relative to §5.1, stated in the definition `Ty.canon`: an ABSENT positional optional is not
+  in the proved domain (whether it is canonical depends on the bytes that follow it — §5.1); such values are
+  covered by the correspondence check on every run (`roundtrip_absent_positional_partial` below shows the
+  phenomenon on the model).
 -/
-import ZvtVerif.Proofs.StructRT
+import ZvtVerif.Proofs.Canon
 import ZvtVerif.Generated
 namespace Zvt.C01
 open Zvt
@@ -134,5 +143,66 @@ theorem completionData_roundtrip (rc sb tid cur : Option Nat)
 /-- a concrete instance evaluated by the kernel (the completion the terminal sends after registration). -/
 example : (decodeCmd Generated.packets_CompletionData [0x06, 0x0f, 0x0c, 0x27, 0x00, 0x29, 0x52, 0x52, 0x35, 0x35, 0x49, 0x09, 0x78, 0x19, 0x00, 0xaa]).isOkVal
     (.struct [.some (.num 0), .some (.num 0), .some (.num 52523535), .some (.num 978)]) [0xaa] = true := by decide +kernel
+
+/-! ### the full statement -/
+
+/-- every shipped packet type is well-formed — decided by the kernel on the schema regenerated from the source. -/
+theorem shipped_wf : ∀ s ∈ Generated.shipped, structWf s = true := by decide +kernel
+
+/-- **C01, every well-formed schema** (also the generic half of C12). -/
+theorem wellformed_roundtrip (s : StructDef) (hwf : structWf s = true) (v : Val) (hc : s.canon v) :
+    ∃ bytes, encodeCmd s v = .ok bytes ∧ decodeCmd s bytes = .ok (v, []) ∧
+      (s.ctrl.isSome = true → ∀ x, decodeCmd s (bytes ++ x) = .ok (v, x)) :=
+  packet_roundtrip s hwf v hc
+
+/-- **C01, all shipped types, all canonical values**: `zvt_deserialize (zvt_serialize v) = (v, nothing left)`,
+and for the command types (those with a control field) any bytes behind the packet are handed back untouched. -/
+theorem all_shipped_roundtrip (s : StructDef) (hs : s ∈ Generated.shipped) (v : Val) (hc : s.canon v) :
+    ∃ bytes, encodeCmd s v = .ok bytes ∧ decodeCmd s bytes = .ok (v, []) ∧
+      (s.ctrl.isSome = true → ∀ x, decodeCmd s (bytes ++ x) = .ok (v, x)) :=
+  packet_roundtrip s (shipped_wf s hs) v hc
+
+/-- the domain is inhabited by non-trivial values: a registration with password, config byte, currency and a
+TLV container carrying the maximal APDU length is canonical … -/
+theorem registration_example_canon : Generated.packets_Registration.canon
+    (.struct [.num 123456, .num 0xde, .some (.num 978), .some (.struct [.some (.num 1024)])]) := by
+  refine ⟨_, rfl, ?_, ?_⟩
+  · simp only [Generated.packets_Registration, Generated.packets_tlv_Registration, fieldsCanon, Ty.canon]
+    refine ⟨?_, ?_, ?_, ⟨⟨?_, trivial⟩, ?_⟩, trivial⟩
+    · exact ⟨_, rfl, by show (bcdEncK 123456).length ≤ 3; decide +kernel, by decide⟩
+    · exact ⟨_, rfl, trivial, by decide⟩
+    · exact ⟨_, rfl, by show (bcdEncK 978).length ≤ 2; decide +kernel, by decide⟩
+    · exact ⟨_, rfl, by show (beBytes 2 1024).length ≤ 65535; decide +kernel, by decide⟩
+    · intro p hp
+      have : encFields [Field.mk "max_len_adpu" (some 0x1a) .tlv .bigEndian (.opt (.int 2))] [.some (.num 1024)] =
+          .ok [0x1a, 0x02, 0x04, 0x00] := by decide +kernel
+      rw [this] at hp; cases hp
+      show (4 : Nat) ≤ 65535; decide
+  · intro p hp
+    have : encFields Generated.packets_Registration.fields
+        [.num 123456, .num 0xde, .some (.num 978), .some (.struct [.some (.num 1024)])] =
+        .ok [0x12, 0x34, 0x56, 0xde, 0x09, 0x78, 0x06, 0x04, 0x1a, 0x02, 0x04, 0x00] := by decide +kernel
+    rw [this] at hp; cases hp; decide
+
+theorem registration_shipped : Generated.packets_Registration ∈ Generated.shipped := by
+  unfold Generated.shipped; simp
+
+/-- … and the theorem applies to it. -/
+example : ∃ bytes, encodeCmd Generated.packets_Registration
+      (.struct [.num 123456, .num 0xde, .some (.num 978), .some (.struct [.some (.num 1024)])]) = .ok bytes ∧
+    ∀ x, decodeCmd Generated.packets_Registration (bytes ++ x) =
+      .ok (.struct [.num 123456, .num 0xde, .some (.num 978), .some (.struct [.some (.num 1024)])], x) := by
+  obtain ⟨bytes, h1, _, h3⟩ := all_shipped_roundtrip Generated.packets_Registration registration_shipped _ registration_example_canon
+  exact ⟨bytes, h1, h3 rfl⟩
+
+/-- why an absent positional optional is outside the proved domain: `StatusEnquiry {password: None,
+service_byte: Some(5), tlv: Some(..)}` is written without any marker for the missing password and read back
+with the password 030506 (and no service byte). -/
+theorem roundtrip_absent_positional_partial :
+    encodeCmd Generated.packets_StatusEnquiry (.struct [.none, .some (.num 5), .some (.struct [.some (.num 7)])]) =
+      .ok [0x05, 0x01, 0x08, 0x03, 0x05, 0x06, 0x04, 0x1f, 0xf2, 0x01, 0x07] ∧
+    (decodeCmd Generated.packets_StatusEnquiry [0x05, 0x01, 0x08, 0x03, 0x05, 0x06, 0x04, 0x1f, 0xf2, 0x01, 0x07]).isOkVal
+      (.struct [.some (.num 30506), .none, .none]) [0x04, 0x1f, 0xf2, 0x01, 0x07] = true := by
+  constructor <;> decide +kernel
 
 end Zvt.C01
